@@ -55,6 +55,8 @@ def streams(seed, tier):
             k = rng.choice([99, 100, 101, 150, 400, 1100])
             body = [rng.choice([Z(i % 7), B(i % 2 == 0), I("NOOP"), I("INTEGER.+"), I("INTEGER.POP")]) for i in range(k)]
             st["exec"] = rng.choice([[L(*body)], body, [L(*body[:k // 2]), L(*body[k // 2:])]])
+        if rng.random() < 0.06:      # the CODE stack already holds the program (a host that copied it itself, a second run on the same state)
+            st["code"] = list(st["exec"])
         if rng.random() < 0.1:       # an instruction item whose name is not registered is skipped like a NOOP
             st["exec"] = list(st["exec"]) + [I("FOO.BAR")] if rng.random() < 0.5 else [I("FOO.BAR")] + list(st["exec"])
         if rng.random() < 0.05:      # nothing to run: a step on an empty EXEC stack reports completion and changes nothing
